@@ -559,6 +559,24 @@ def run(world, rep, tier, only=None):
                "ext2fs_extent_get(handle, %s, …) inside the loop is EXT2_EXTENT_NEXT" % T.pp(arg(c, 1))[:30])
     rep.ob("C14.l", site(fx, "a block that failed verification is rewritten"), bool(ups), "update_path() is called in the walk")
 
+    # ------------------------------------------------------------------ C14.m every block of a renumbered directory is rewritten, empty ones too
+    # A directory block's checksum folds in the directory's inode number.  When resize2fs gives a directory a new
+    # number, its callback reports DIRENT_CHANGED for *every* entry so that each block is written again; an entry that
+    # is unused must not leave the callback before that clause, or a block that holds only unused entries keeps the
+    # checksum of the old number.
+    rprog = world.program("resize2fs")
+    cci = rprog.fn("check_and_change_inodes", "resize/resize2fs.c")
+    chg = [n for n in cci.events("S") if "DIRENT_CHANGED" in T.macros(n.ev.get("rhs") or {}) and
+           any(t is not None and any(cc.get("fn") == "ext2fs_has_feature_metadata_csum" for cc in T.calls(a_)) for t, a_ in control_lits(cci, n))]
+    unused = [cci.block_end(b) for b in cci.blocks if cci.literal(b) and (T.last_field(cci.literal(b)[0]) or ("", ""))[1] == "inode" and
+              T.strip(cci.literal(b)[0]).get("k") == "m"]
+    rep.floor("C14.m checksum clause / unused-entry test in check_and_change_inodes", min(len(chg), len(unused)), 1)
+    decide = [cci.block_end(b) for b in cci.blocks if cci.literal(b) and
+              any(cc.get("fn") == "ext2fs_has_feature_metadata_csum" for cc in T.calls(cci.literal(b)[0]))]
+    for i, u_ in enumerate(unused):
+        rep.ob("C14.m", site(cci, "unused entries leave the callback only after the checksum clause#%d" % i), cci.dominated_by(u_, decide),
+               "the test of dirent->inode (line %d) is dominated by the metadata_csum clause that sets DIRENT_CHANGED" % u_.line)
+
     # ------------------------------------------------------------------ C14.f CRC tables
     crc_tables(world, rep)
 
